@@ -31,10 +31,10 @@ Proof. unfold qltb. destruct (Qle_bool b a) eqn:E.
 Ltac qcases :=
   unfold qpos, qneg in *;
   repeat match goal with
-  | |- context [qmin ?a ?b] => let H := fresh in let E := fresh in destruct (qmin_spec a b) as [[H E]|[H E]]; rewrite !E in *
-  | |- context [qmax ?a ?b] => let H := fresh in let E := fresh in destruct (qmax_spec a b) as [[H E]|[H E]]; rewrite !E in *
-  | H0 : context [qmin ?a ?b] |- _ => let H := fresh in let E := fresh in destruct (qmin_spec a b) as [[H E]|[H E]]; rewrite !E in *
-  | H0 : context [qmax ?a ?b] |- _ => let H := fresh in let E := fresh in destruct (qmax_spec a b) as [[H E]|[H E]]; rewrite !E in *
+  | |- context [qmin ?a ?b] => let H := fresh in let E := fresh in destruct (qmin_spec a b) as [[H E]|[H E]]; rewrite ?E in *; clear E
+  | |- context [qmax ?a ?b] => let H := fresh in let E := fresh in destruct (qmax_spec a b) as [[H E]|[H E]]; rewrite ?E in *; clear E
+  | H0 : context [qmin ?a ?b] |- _ => let H := fresh in let E := fresh in destruct (qmin_spec a b) as [[H E]|[H E]]; rewrite ?E in *; clear E
+  | H0 : context [qmax ?a ?b] |- _ => let H := fresh in let E := fresh in destruct (qmax_spec a b) as [[H E]|[H E]]; rewrite ?E in *; clear E
   end.
 
 Global Instance qmin_proper : Proper (Qeq ==> Qeq ==> Qeq) qmin.
